@@ -238,6 +238,13 @@ func (f *RunningEventFilter) onReorg(writer db.KeyValueWriter) error {
 		return err
 	}
 
+	// The snapshot written at shutdown describes the chain before this revert. Drop it
+	// with the revert, otherwise a restart without a fresh snapshot resumes from it and
+	// misses the blocks that replace the reverted ones.
+	if err := DeleteRunningEventFilter(writer); err != nil {
+		return fmt.Errorf("deleting stale running event filter snapshot: %w", err)
+	}
+
 	currRangeStart := f.inner.FromBlock()
 	curBlock := f.next - 1
 	// Falls into previous filter's range
